@@ -1804,13 +1804,17 @@ class VM:
             begin = min(begin, arr.length)
             end = min(end, arr.length)
 
-            # Create new typed array of same type
+            # A subarray is a view on the storage of the original: give an
+            # array that was created without a buffer one holding its elements
+            if arr._buffer is None:
+                elements = list(arr._data)
+                arr._buffer = JSArrayBuffer(len(elements) * arr._element_size)
+                arr._byte_offset = 0
+                for i, value in enumerate(elements):
+                    arr._write_to_buffer(i, value)
             result = type(arr)(max(0, end - begin))
-            for i in range(begin, end):
-                result.set_index(i - begin, arr.get_index(i))
-            # Share the same buffer if the original has one
-            if hasattr(arr, "_buffer"):
-                result._buffer = arr._buffer
+            result._buffer = arr._buffer
+            result._byte_offset = arr._byte_offset + begin * arr._element_size
             return result
 
         def set_fn(*args):
